@@ -2,7 +2,7 @@
 # usage: confirm_seed.sh <Cxx> <variant>   -- confirms a seeded change in a scratch worktree of /repo HEAD
 # writes /tmp/seed/<Cxx>/confirm_<variant>.txt ; removes the worktree afterwards
 id=$1; v=$2
-src=/tmp/seed/$id
+src=${SEEDROOT:-/tmp/seed}/$id
 wt=/tmp/cw/$id$v
 [ -f /tmp/seed/rebased/${id}_$v.diff ] && REB=/tmp/seed/rebased/${id}_$v.diff
 out=$src/confirm_$v.txt
